@@ -514,7 +514,7 @@ fn exec_step(c: &mut Ctx, st: &Step, property: &str) -> Result<(), String> {
             let mut entitled = false;
             let answer: Option<Answer> = match beh {
                 "honest-own-key" => {
-                    let sig = dv::SigningKey::sign(&adv_key, &ch);
+                    let sig = dv::SigningKey::sign(&adv_key, &dv::IdentityAnswer::challenge_message(&ch));
                     entitled = token_kind == "owned-invite" || a == cl;
                     Some(ok_answer(qid, true, &dv::IdentityAnswer { peer: adv_row.clone(), chall_signature: sig }))
                 }
@@ -524,7 +524,7 @@ fn exec_step(c: &mut Ctx, st: &Step, property: &str) -> Result<(), String> {
                     let mut other = [9u8; 32];
                     other[0] = a as u8;
                     let k = dv::Ed25519SigningKey::create_from(&other);
-                    let sig = dv::SigningKey::sign(&k, &ch);
+                    let sig = dv::SigningKey::sign(&k, &dv::IdentityAnswer::challenge_message(&ch));
                     Some(ok_answer(qid, true, &dv::IdentityAnswer { peer: row, chall_signature: sig }))
                 }
                 "replayed-answer-of-another-connection" => match c.recorded.iter().find(|(who, _)| *who == cl).map(|x| (x.1.peer.clone(), x.1.chall_signature.clone())) {
@@ -532,14 +532,14 @@ fn exec_step(c: &mut Ctx, st: &Step, property: &str) -> Result<(), String> {
                     None => Some(err_answer(qid)),
                 },
                 "valid-proof-by-another-allowed-peer" => {
-                    let sig = dv::SigningKey::sign(&adv_key, &ch);
+                    let sig = dv::SigningKey::sign(&adv_key, &dv::IdentityAnswer::challenge_message(&ch));
                     entitled = token_kind == "owned-invite";
                     Some(ok_answer(qid, true, &dv::IdentityAnswer { peer: adv_row.clone(), chall_signature: sig }))
                 }
                 "malformed-peer-row" => {
                     let mut row = adv_row.clone();
                     row._json = Some("[1,2,3]".into());
-                    let sig = dv::SigningKey::sign(&adv_key, &ch);
+                    let sig = dv::SigningKey::sign(&adv_key, &dv::IdentityAnswer::challenge_message(&ch));
                     Some(ok_answer(qid, true, &dv::IdentityAnswer { peer: row, chall_signature: sig }))
                 }
                 "signature-over-other-bytes" => {
@@ -556,7 +556,7 @@ fn exec_step(c: &mut Ctx, st: &Step, property: &str) -> Result<(), String> {
                 ("answer-after-timeout", _) => {
                     c.w.nodes[v].advance_timers(std::time::Duration::from_secs(dv::NETWORK_TIMEOUT_SEC + 1)).map_err(|e| format!("{e:?}"))?;
                     c.w.fault("stall_timeout");
-                    let sig = dv::SigningKey::sign(&adv_key, &ch);
+                    let sig = dv::SigningKey::sign(&adv_key, &dv::IdentityAnswer::challenge_message(&ch));
                     entitled = false;
                     conn.answer(&mut c.w.nodes[v], ok_answer(qid, true, &dv::IdentityAnswer { peer: adv_row.clone(), chall_signature: sig })).map_err(|e| format!("{e:?}"))?;
                 }
@@ -676,7 +676,7 @@ fn lock_leak(c: &mut Ctx, v: usize, how: usize) -> Result<(), String> {
     let Some((qid, ch)) = challenge else { return Err("no challenge".into()) };
     let key = c.w.nodes[a].signing_key();
     let row = peer_row(c, a)?;
-    let sig = dv::SigningKey::sign(&key, &ch);
+    let sig = dv::SigningKey::sign(&key, &dv::IdentityAnswer::challenge_message(&ch));
     conn.answer(&mut c.w.nodes[v], ok_answer(qid, true, &dv::IdentityAnswer { peer: row, chall_signature: sig })).map_err(|e| format!("{e:?}"))?;
     conn.send_event(&mut c.w.nodes[v], RemoteEvent::Ready).map_err(|e| format!("{e:?}"))?;
     c.w.nodes[v].settle().map_err(|e| format!("{e:?}"))?;
